@@ -46,7 +46,7 @@ class skip_sync:
     raises = [R("ValueError", when=lambda fo, sync_marker: not fo.rem.startswith(sync_marker))]
     ensures = lambda fo, sync_marker, result: (
         old.fo.rem == sync_marker + fo.rem and fo.pos == old.fo.pos + 16
-        and fo.data == old.fo.data and result is None)
+        and fo.data == old.fo.data and fo.eof_hit == old.fo.eof_hit and result is None)
 
 
 @target(RP, "null_read_block")
@@ -240,3 +240,115 @@ class is_avro:
     returns = "bool"
     modifies = ["path_or_buffer"]
     ensures = lambda path_or_buffer, result: result == old.path_or_buffer.rem.startswith(b"Obj\x01")
+
+
+# ------------------------------------------------------------------ C06: truncated / corrupted input
+# Behaviour `short`: NO assumption about the bytes still to be read.  A call that returns has not had a read come back
+# short; the iterators end normally only through the one place where end-of-input is the regular way to stop: the
+# read of a block's record count finding nothing at all to read (read_long[short]: EOFError exactly then).  Everything
+# else -- a cut inside the count, the length, the payload, the marker, a marker that differs -- propagates.
+
+
+@target(RP, "null_read_block", behavior="short")
+class null_read_block_short:
+    types = dict(decoder="BinaryDecoder")
+    modifies = ["decoder.fo"]
+    fresh_result = "InStream"
+    raises = [R("Exception", must=False)]
+    call_behaviors = {"BinaryDecoder.*": "short"}
+    ensures = lambda decoder, result: decoder.fo.data == old.decoder.fo.data and decoder.fo.eof_hit == old.decoder.fo.eof_hit
+
+
+@target(RP, "deflate_read_block", behavior="short")
+class deflate_read_block_short:
+    types = dict(decoder="BinaryDecoder")
+    modifies = ["decoder.fo"]
+    fresh_result = "InStream"
+    raises = [R("Exception", must=False)]
+    call_behaviors = {"BinaryDecoder.*": "short"}
+    ensures = lambda decoder, result: decoder.fo.data == old.decoder.fo.data and decoder.fo.eof_hit == old.decoder.fo.eof_hit
+
+
+@target(RP, "bzip2_read_block", behavior="short")
+class bzip2_read_block_short:
+    types = dict(decoder="BinaryDecoder")
+    modifies = ["decoder.fo"]
+    fresh_result = "InStream"
+    raises = [R("Exception", must=False)]
+    call_behaviors = {"BinaryDecoder.*": "short"}
+    ensures = lambda decoder, result: decoder.fo.data == old.decoder.fo.data and decoder.fo.eof_hit == old.decoder.fo.eof_hit
+
+
+@target(RP, "xz_read_block", behavior="short")
+class xz_read_block_short:
+    types = dict(decoder="BinaryDecoder")
+    modifies = ["decoder.fo"]
+    fresh_result = "InStream"
+    raises = [R("Exception", must=False)]
+    call_behaviors = {"BinaryDecoder.*": "short", "read_long": "bareshort"}
+    ensures = lambda decoder, result: decoder.fo.data == old.decoder.fo.data and decoder.fo.eof_hit == old.decoder.fo.eof_hit
+
+
+@target(RP, "_iter_avro_records", behavior="short")
+class _iter_avro_records_short:
+    """a file cut or damaged anywhere: the iterator ends normally only when the input is exhausted exactly where a
+    block would start, and until then no read has come back short (every block consumed so far was complete and its
+    marker matched -- skip_sync raises otherwise)"""
+    types = dict(decoder="BinaryDecoder", header="dict", codec="str", writer_schema="py",
+                 named_schemas="dict", reader_schema="py", options="dict")
+    ghosts = dict(sync="bytes")
+    requires = lambda decoder, header, codec, writer_schema, named_schemas, reader_schema, options: (
+        "sync" in header and same(header["sync"], sync) and len(sync) == 16
+        and (codec == "null" or codec == "deflate" or codec == "bzip2" or codec == "xz")
+        and "writer" in named_schemas and isinstance(named_schemas["writer"], dict) and reader_schema is None
+        and "reader" in named_schemas and isinstance(named_schemas["reader"], dict)
+        and None not in named_schemas["reader"]
+        and A.WF(writer_schema, named_schemas["writer"])
+        and implies(isinstance(writer_schema, dict), "logicalType" not in writer_schema)
+        and A.READ_OPTS_PLAIN(options))
+    modifies = ["decoder"]
+    opaque_here = ["WFW", "VALUE", "BYTES", "WF", "COMP", "DECOMP", "READ_OPTS_PLAIN"]
+    raises = [R("Exception", must=False)]
+    call_behaviors = {"BinaryDecoder.*": "short", "read_data": "short", "skip_sync": "default",
+                      "null_read_block": "short", "deflate_read_block": "short", "bzip2_read_block": "short", "xz_read_block": "short"}
+    loops = {
+        0: lambda decoder: decoder.fo.data == old.decoder.fo.data and decoder.fo.eof_hit == old.decoder.fo.eof_hit,
+        1: lambda decoder: decoder.fo.data == old.decoder.fo.data and decoder.fo.eof_hit == old.decoder.fo.eof_hit,
+    }
+    ensures = lambda decoder: decoder.fo.rem == b"" and decoder.fo.data == old.decoder.fo.data
+
+
+@target(RP, "_iter_avro_blocks", behavior="short")
+class _iter_avro_blocks_short:
+    types = dict(decoder="BinaryDecoder", header="dict", codec="str", writer_schema="py",
+                 named_schemas="dict", reader_schema="py", options="dict")
+    ghosts = dict(sync="bytes")
+    requires = lambda decoder, header, codec, writer_schema, named_schemas: (
+        "sync" in header and same(header["sync"], sync) and len(sync) == 16
+        and (codec == "null" or codec == "deflate" or codec == "bzip2" or codec == "xz")
+        and "writer" in named_schemas and isinstance(named_schemas["writer"], dict))
+    modifies = ["decoder"]
+    raises = [R("Exception", must=False)]
+    yield_view = lambda y: (y.num_records, y.offset, y.size)
+    call_behaviors = {"BinaryDecoder.*": "short", "skip_sync": "default",
+                      "null_read_block": "short", "deflate_read_block": "short", "bzip2_read_block": "short", "xz_read_block": "short"}
+    loops = {0: lambda decoder: decoder.fo.data == old.decoder.fo.data and decoder.fo.eof_hit == old.decoder.fo.eof_hit}
+    ensures = lambda decoder: decoder.fo.rem == b"" and decoder.fo.data == old.decoder.fo.data
+
+
+@target(RP, "Block.__iter__", behavior="short")
+class block_iter_short:
+    types = dict(self="ReadBlock")
+    requires = lambda self: (
+        "writer" in self._named_schemas and isinstance(self._named_schemas["writer"], dict) and self.reader_schema is None
+        and "reader" in self._named_schemas and isinstance(self._named_schemas["reader"], dict)
+        and None not in self._named_schemas["reader"]
+        and A.WF(self.writer_schema, self._named_schemas["writer"])
+        and implies(isinstance(self.writer_schema, dict), "logicalType" not in self.writer_schema)
+        and A.READ_OPTS_PLAIN(self.options))
+    modifies = ["self.bytes_"]
+    opaque_here = ["WFW", "VALUE", "BYTES", "WF", "READ_OPTS_PLAIN"]
+    raises = [R("Exception", must=False)]
+    call_behaviors = {"read_data": "short"}
+    loops = {0: lambda self: self.bytes_.data == old.self.bytes_.data and self.bytes_.eof_hit == old.self.bytes_.eof_hit}
+    ensures = lambda self: self.bytes_.data == old.self.bytes_.data and self.bytes_.eof_hit == old.self.bytes_.eof_hit
